@@ -13,6 +13,9 @@ open Teos.Client
 /-- how a tower answers `add_appointment` when it can be reached -/
 inductive AddMode where
   | accept | subErr | reject | garbage | wrongSigner
+  /-- a subscription error until the client has registered again, a receipt from then on (what a
+  real tower does when the subscription has run out) -/
+  | subErrUntilReg
 deriving DecidableEq, Repr
 
 /-- how a tower answers `register` when it can be reached -/
@@ -35,6 +38,8 @@ structure Beh where
   /-- the tower accepts the connection but does not answer (until released): a retrier that
   reaches it stays "running" -/
   hold : Bool := false
+  /-- the tower has answered a `register` request with a receipt since `add` was last set -/
+  renewed : Bool := false
 deriving Repr
 
 /-- `net::http::send_appointment`'s result, as the two callers distinguish it -/
@@ -54,10 +59,12 @@ def classifyMode (m : AddMode) : Outcome :=
   | .reject => .rejected
   | .garbage => .unparsable
   | .wrongSigner => .wrongSigner
+  | .subErrUntilReg => .subErr
 
 def classify (b : Beh) : Outcome :=
   if b.down then .connErr else
-  if b.once > 0 then classifyMode b.onceAdd else classifyMode b.add
+  if b.once > 0 then classifyMode b.onceAdd else
+  if b.add = .subErrUntilReg ∧ b.renewed = true then .accepted else classifyMode b.add
 
 structure St where
   client : Client := Client.fresh
@@ -103,8 +110,11 @@ def regAccepted (s : St) (t : TowerId) : Bool :=
 carry a new receipt, whether or not the client accepts it -/
 def St.towerRegisters (s : St) (t : TowerId) : St :=
   match (s.beh t).reg with
-  | .wrongSigner => { s with ahead := fun x => if x = t then true else s.ahead x }
-  | _ => s
+  | .garbage => s
+  | .wrongSigner =>
+    { s with ahead := fun x => if x = t then true else s.ahead x,
+             beh := fun x => if x = t then { s.beh t with renewed := true } else s.beh x }
+  | _ => { s with beh := fun x => if x = t then { s.beh t with renewed := true } else s.beh x }
 
 def St.recordRegistration (s : St) (t : TowerId) : St :=
   let c := (s.client.addUpdateTower t t (nextReceipt s.client t)).1
@@ -146,7 +156,7 @@ def reRegister (s : St) (t : TowerId) : St × Option RunResult :=
       | .wrongSigner => (s.towerRegisters t, some .permanentSub)
       | _ =>
         if regAccepted s t then ((s.towerRegisters t).recordRegistration t, none)
-        else (s, some .permanentSub)
+        else (s.towerRegisters t, some .permanentSub)
   else (s, none)
 
 /-- one call of `Retrier::run` -/
@@ -277,8 +287,8 @@ def St.registerCore (s : St) (t : TowerId) : St × Reply :=
     | .garbage => (s, .errBody)
     | .wrongSigner => (s.towerRegisters t, .errBadSig)
     | _ =>
-      if regAccepted s t then (s.recordRegistration t, .ok)
-      else (s, .errExpiry)
+      if regAccepted s t then ((s.towerRegisters t).recordRegistration t, .ok)
+      else (s.towerRegisters t, .errExpiry)
 
 /-- `registertower` -/
 def St.register (s : St) (t : TowerId) : St × Reply := (s.grow t).registerCore t
